@@ -23,7 +23,9 @@ func init() {
 		Run:    run,
 		Replay: replay,
 		Rule: "BFS over product states (implementation abstract key x RFC 8259 PDA state), every one of the 256 byte values plus 3 macro inputs from every state; " +
-			"plus the whitespace-placement family (every witness x one whitespace insertion x {as is, completed} x {[]byte, one chunk, every 2-split}); distinct_nontrivial = product states; evaluations = executions of the real front-end",
+			"plus the whitespace-placement family (every witness x one whitespace insertion x {as is, completed} x {[]byte, one chunk, every 2-split}); " +
+			"every reader run also under the reader's other lawful answers (io.EOF with the last chunk, one empty read before the last chunk or before io.EOF), " +
+			"every []byte run also with the reference's shortest completion stored behind the input in the slice's spare capacity and with no spare capacity (the answer must not change); distinct_nontrivial = product states; evaluations = executions of the real front-end",
 		Assumptions: []string{"nesting bounded by D (control flow reads only the top two stack slots and emptiness)",
 			"jsonref is the specification; it is cross-checked against encoding/json.Valid on every explored input",
 			"abstract key merges states that differ only in data (digits, string bytes, element counts above 2)"},
